@@ -135,16 +135,14 @@ def splitPaste (rest : List PTok) : Option (PTok × List PTok) :=
     | [] => none
   | _ => none
 
-/-- first / last token of a replacement list that is not white space, seen from a position -/
-def prevTok (rev : List PTok) : Option Tok := firstTok rev
-
-/-- the parameters that occur next to `##` in a replacement list -/
-def pasteParams : List PTok → List PTok → List Nat
+/-- the parameters that occur next to `##` in a replacement list; `prev`: the last token passed that is not white
+space -/
+def pasteParams : Option Tok → List PTok → List Nat
   | _, [] => []
-  | before, t :: rest =>
-    let more := pasteParams (t :: before) rest
+  | prev, t :: rest =>
+    let more := pasteParams (if t.tok.isWhitespace then prev else some t.tok) rest
     match t.tok with
-    | .arg i => if firstTok before == some .concat || firstTok rest == some .concat then i :: more else more
+    | .arg i => if prev == some .concat || firstTok rest == some .concat then i :: more else more
     | _ => more
 
 def noConcatB (l : List PTok) : Bool := l.all (fun t => t.tok != .concat)
@@ -184,7 +182,7 @@ def tameRunP : Nat → List Entry → List PTok → Option (List PTok)
           | .error _ => keep
           | .ok (rest', args) =>
             if args.all noConcatB &&
-                (pasteParams [] e.m.body).all (fun i => noNamesB env (args.getD i []) && nonEmptyB (args.getD i [])) then
+                (pasteParams none e.m.body).all (fun i => noNamesB env (args.getD i []) && nonEmptyB (args.getD i [])) then
               match mapO (tameRunP f env) args with
               | none => none
               | some args' =>
